@@ -38,6 +38,9 @@ PT_ORDER = list(PT)
 G.KINDS.setdefault("comment_in_decl", lambda: G.Item("comment_in_decl", [("margin", "0", False), "/* before */", ("color", "#777 /* tail */", False), "/* after */"]))
 
 
+ROOT_KEYS = (O.sel_key(":root"), O.sel_key("html"))
+
+
 def masked_tree(text, adjusted, props):
     """Normalised tree with the allowed-to-differ spans replaced by a placeholder."""
     def decls(sel, ds):
@@ -47,7 +50,7 @@ def masked_tree(text, adjusted, props):
             if d[0] == "decl" and d[1].lower() == "color":
                 last_color = i
         for i, d in enumerate(ds):
-            if d[0] == "decl" and ((sel in adjusted and i == last_color) or (sel in (":root", "html") and d[1] in props)):
+            if d[0] == "decl" and ((sel in adjusted and i == last_color) or (sel in ROOT_KEYS and d[1] in props)):
                 # the value may differ, the comments written inside it may not disappear
                 out.append(("decl", d[1], ("<MASKED VALUE>",) + tuple(t for t in d[2] if t[0] == "comment" and t[1] != ""), d[3]))
             else:
@@ -58,7 +61,7 @@ def masked_tree(text, adjusted, props):
         out = []
         for it in items:
             if it[0] == "rule":
-                sel = T.serialize_value(T.norm_tokens([t for t in it[1]], drop_comments=True))
+                sel = T.norm_tokens([t for t in it[1]], drop_comments=True)   # selector key (token values)
                 out.append(("rule", it[1], decls(sel, it[2])))
             elif it[0] == "at" and it[3] is not None and it[3][0] == "rules":
                 out.append(("at", it[1], it[2], ("rules", rules(it[3][1]))))
@@ -126,10 +129,10 @@ def judge_obs(sheet, settings, ob, extra_names=()):
             v("input/bytes_changed", "input %s was modified by the run" % n)
         elif ob["after"][n][1] != st:
             v("input/inode_or_mtime_changed", "input %s was rewritten (inode/mtime %s -> %s)" % (n, st, ob["after"][n][1]))
-    adjusted = {c["selector"] for c in (ob["cards"] or [])}
+    adjusted = {O.sel_key(c["selector"]) for c in (ob["cards"] or []) if c.get("selector")}
     if ob["counts"]["tuned"] > 0 and not adjusted:
         # the report could not be read (its markup changed): every rule with a text colour may have been adjusted
-        adjusted = {sel for sel, it, _w in sheet.rules if it.has_text_colour()}
+        adjusted = {O.sel_key(sel) for sel, it, _w in sheet.rules if it.has_text_colour()}
     junk = any(any(isinstance(d, str) and not d.startswith("/*") for d in it.decls) for _, it, _ in sheet.rules)
     dropped = ob["out_text"] is None
     expected_new = set() if dropped else {ob["outname"]}
@@ -149,7 +152,7 @@ def judge_obs(sheet, settings, ob, extra_names=()):
     # (2) structure preserved
     props = set()
     for sel, it, _w in sheet.rules:
-        if sel in adjusted and it.last("color"):
+        if O.sel_key(sel) in adjusted and it.last("color"):
             n = O.var_name(it.last("color")[1])
             seen = set()
             while n and n not in seen:
@@ -167,7 +170,7 @@ def judge_obs(sheet, settings, ob, extra_names=()):
     from mc.oracle import css_color
 
     by_sel_out, _defs = O.output_model(ob["out_text"])
-    for sel in sorted(adjusted):
+    for sel in sorted(adjusted, key=repr):
         for decls, _path in by_sel_out.get(sel, []):
             d = O.last_decl(decls, "color")
             if d is None:
@@ -175,7 +178,7 @@ def judge_obs(sheet, settings, ob, extra_names=()):
             val = T.serialize_value([t for t in d[2] if t[0] != "comment"]).strip()
             if O.var_name(val) is None and css_color.parse(val) is None:
                 v("preserve/adjusted_value_not_valid_css", "rule %s was adjusted to %r, which is not a valid CSS colour value" % (sel, val))
-    for sel in (":root", "html"):
+    for sel in ROOT_KEYS:
         for decls, _path in by_sel_out.get(sel, []):
             for d in decls:
                 if d[0] == "decl" and d[1] in props:
